@@ -28,7 +28,8 @@ THREAD_REPLICA = False   # this monitor uses a process-wide sys.monitoring probe
 def shards(tier):
     names = sorted(C.number_modules())
     n = 32 if tier == 'quick' else 64
-    return [{'name': 'm%02d' % i, 'modules': part} for i, part in enumerate(C.chunk(names, n)) if part]
+    return [{'name': 'm%02d' % i, 'modules': part} for i, part in enumerate(C.chunk(names, n)) if part] + \
+        [{'name': 'doctest-suite', 'kind': 'doctests', 'modules': []}]
 
 
 def trigger_of(cls):
@@ -94,6 +95,8 @@ def check_pair(modname, mod, x_factory, opts, cls, viols, clockdate=None):
 
 
 def work(shard, tier):
+    if shard.get('kind') == 'doctests':
+        return doctest_suite_work()
     mods = C.number_modules()
     C.install_clock()
     clock_mods = set(C.clock_reading_modules()) | {'be.bis', 'be.ssn'}
@@ -241,3 +244,15 @@ def replay(w):
             viols[sig] = {'sig': sig, 'what': 'validate left with %s' % ov[1]}
     C.set_clock(None)
     return list(viols.values())
+
+
+def doctest_suite_work():
+    """The repository's own doctest suite with this property's boundary contract switched on."""
+    rec, err = C.run_doctests_with_contracts('C01')
+    if err:
+        return {'evaluations': 0, 'nontrivial': 0, 'violations': [], 'inconclusive': ['contracts-on doctest run failed: %s' % err]}
+    return {'evaluations': rec['calls'], 'nontrivial': 0, 'violations': rec['violations'],
+            'samples': [{'workload': 'repository doctest suite under contracts', 'validate_calls': rec['calls'], 'pytest': rec['pytest_tail']}],
+            'counters': {'doctest_suite_validate_calls': rec['calls'], 'doctest_suite_accepted_calls': rec['accepted'],
+                         'doctest_suite_modules': len(rec['modules'])},
+            'sets': {}}
